@@ -95,3 +95,20 @@ claim("C12",
       "halving, energy-proportional terms, composition, tariff class) are also evaluated on the implementation for every "
       "generated case, away from bracket boundaries where one ulp of the float-computed year fraction decides.",
       TB + AX_R + ".", "Coq proof over hand model of the tariff arithmetic + exact differential correspondence", "5.12")
+claim("C10",
+      "Step-level Gallina model of Greedy.step / Balanced.step with distribute_surplus_power and update_batteries, compared "
+      "EXACTLY (commands, SoCs, load dictionaries, station powers) with every sampled recorded step of exact greedy/balanced "
+      "runs, each with its exp/log oracle; the documented rule's first-order consequences (no charging beyond the desired SoC "
+      "without surplus or cheap price; batteries charge only from surplus or cheap power and discharge only against grid draw) "
+      "are evaluated independently on the same steps. PARTIAL: refinement theorems model = independent spec are not yet proved; "
+      "kernel theorems used by the rule (clamp_power, battery balance) are under C05/C01.",
+      TB + "The strategy model itself carries no theorem yet; its tie to the code is the exact per-step correspondence.",
+      "hand model of the strategy step + exact differential correspondence per step + independent rule predicates", "5.10",
+      category="translation_validation")
+claim("C18",
+      "Theorem: split_feedin yields non-negative parts in the order generation > V2G > battery summing to the total feed-in; "
+      "model tied by exact correspondence incl. 3-decimal rounding. PARTIAL: row construction and aggregates are checked cell by "
+      "cell on the CSV/JSON files of recorded exact runs (completed and aborted, 1-2 connectors), and the cost round trip by "
+      "running simulate.py's in-run costing and calculate_costs.py on the written files with the same options (found and fixed: "
+      "price column name mismatch).",
+      TB + AX_R + ".", "Coq proof of split_feedin + exact correspondence + file-level comparison and cost round trip", "5.18")
